@@ -145,6 +145,25 @@ def order(seed, tier):
         for s in range(nsub):
             steps += [Gen.do("ackmode", "S%d" % s, mode="auto"), Gen.do("ack", "S%d" % s, n=0)]
         g.add(steps, mode="concurrent" if k % 2 else "step", window=rng.choice([1, 2, 3, 10]), queue=200)
+    # directed: several messages in flight, SOME of them acknowledged (oldest / youngest / two), connection cut, session resumed:
+    # the rest is retransmitted in the order of the original transmission
+    for window in (3, 5):
+        for qmix in ([1, 1, 1, 1, 1], [2, 1, 2, 1, 2], [1, 2, 2, 1, 1]):
+            for ack in ({"n": 1}, {"n": 1, "mode": "last"}, {"n": 2}):
+                nm = window
+                steps = [Gen.open("S", clean=False), Gen.sub("S", ("a", 2)), Gen.do("ackmode", "S", mode="manual"), Gen.open("P")]
+                steps += [Gen.pub("P", "a", qmix[i], "P#%d" % (i + 1)) for i in range(nm)]
+                steps += [Gen.do("ack", "S", **ack), Gen.do("cut", "S"), Gen.open("S", clean=False), Gen.do("ack", "S", n=0), Gen.do("ack", "S", n=0)]
+                g.add(steps, window=window, queue=50)
+    # directed: QoS 0 messages published while the subscriber is offline and after it came back, with its dequeuer held up by an
+    # unacknowledged QoS 1 message (window 1): whatever the broker keeps must not be overtaken by later messages
+    for rep in range(6 if tier == "quick" else 16):
+        steps = [Gen.open("S", clean=False), Gen.sub("S", ("a", 1)), Gen.do("ackmode", "S", mode="manual"), Gen.open("P"),
+                 Gen.pub("P", "a", 1, "P#1"), Gen.do("cut", "S"), Gen.pub("P", "a", 0, "P#2"), Gen.pub("P", "a", 0, "P#3"),
+                 Gen.open("S", clean=False), Gen.do("ackmode", "S", mode="manual"),
+                 Gen.pub("P", "a", 0, "P#4"), Gen.pub("P", "a", 0, "P#5"), Gen.pub("P", "a", 1, "P#6"),
+                 Gen.do("ack", "S", n=0), Gen.do("ack", "S", n=0), Gen.do("ack", "S", n=0)]
+        g.add(steps, window=1, queue=50)
     return g.scripts
 
 
